@@ -2,6 +2,7 @@ package dsig
 
 import (
 	"encoding/json"
+	"errors"
 	"fmt"
 
 	"github.com/go-jose/go-jose/v4"
@@ -142,6 +143,9 @@ func (s *Signature) String() string {
 // Verify will ensure that the provided key was used to sign the
 // signature and will provide the raw data that was signed.
 func (s *Signature) Verify(key *PublicKey) ([]byte, error) {
+	if s == nil || s.jws == nil || key == nil || key.jwk == nil {
+		return nil, ErrVerifyFailed
+	}
 	data, err := s.jws.Verify(key.jwk)
 	if err != nil {
 		// at the risk of hiding useful errors, provide our own
@@ -166,6 +170,9 @@ func (s *Signature) VerifyPayload(key *PublicKey, payload any) error {
 // Unsafe provides the raw data that was signed, but will not check
 // any of the signatures.
 func (s *Signature) Unsafe() []byte {
+	if s == nil || s.jws == nil {
+		return nil
+	}
 	return s.jws.UnsafePayloadWithoutVerification()
 }
 
@@ -184,6 +191,15 @@ func (s *Signature) UnsafePayload(payload any) error {
 // JSONWebSignature provides underlying JOSE object.
 func (s *Signature) JSONWebSignature() *jose.JSONWebSignature {
 	return s.jws
+}
+
+// Validate ensures the signature actually contains a parsed JSON Web
+// Signature, which is not the case when it was read from an empty string.
+func (s *Signature) Validate() error {
+	if s == nil || s.jws == nil {
+		return errors.New("missing or empty signature")
+	}
+	return nil
 }
 
 // MarshalJSON provides the compact string signature ready to be
